@@ -95,6 +95,33 @@ def run_mode(ctx, r, h, drv, mode, seed, n, timeout):
                 r.hits.append(Hit('monitor', 'C13:interrupt:accepted_while_disabled', 'interrupt() while the target had interruption disabled was not refused with thread_not_interruptable (model: EIntrRefused): %s' % x, dict(rep, case=x)))
             if sc in ('0', '2') and f.get('accepted') != '1':
                 r.hits.append(Hit('monitor', 'C13:interrupt:refused_while_enabled', 'interrupt() of a thread with interruption enabled was refused: %s' % x, dict(rep, case=x)))
+    # ---- sequential specification of the handle state (independent of the Coq model)
+    for i_, o_ in zip([x for x in ins if x.startswith('IN SEQ')], [x for x in outs if x.startswith('OUT SEQ')]):
+        p = i_.split(' ')
+        st = [c == '1' for c in p[4]]
+        got = o_.split(' ')[3][5:].split(',')
+        for op, g_ in zip(p[5].split(','), got):
+            k = int(op[1:])
+            if op[0] == 'J':
+                exp = 'J%d:%s' % (k, 'ok' if st[k] else 'NJ')
+                st[k] = False
+            elif op[0] == 'D':
+                exp = 'D%d' % k
+                st[k] = False
+            else:
+                exp = 'Q%d:%d' % (k, 1 if st[k] else 0)
+            if g_ != exp:
+                what = ('join_nonjoinable_not_reported' if exp.endswith('NJ') else
+                        'joinable_wrong' if op[0] == 'Q' else 'join_failed')
+                r.hits.append(Hit('monitor', 'C13:seq:' + what,
+                                  'operation %s of history [%s] gave %s, expected %s (join on a non-joinable handle must be reported as invalid_status; '
+                                  'after join/detach the handle is not joinable)' % (op, p[5], g_, exp), dict(rep, case=i_, observed=o_)))
+                break
+        so = o_.split(' ')[4]
+        if p[6] == '1' and so != 'self=J0:SELF,Q0:1,D0,Q0:0':
+            r.hits.append(Hit('monitor', 'C13:seq:self_join', 'a thread joining itself: %s (expected thread_resource_error, still joinable, then detach)' % so,
+                              dict(rep, case=i_, observed=o_)))
+        r.evaluations += 1
     # ---- correspondence with the extracted model
     if ins:
         rc2, mout = sh([drv], input='\n'.join(ins) + '\n', timeout=timeout)
